@@ -198,32 +198,55 @@ def body(chk, db, cfgname):
         imgloop = [s for s in shapes if s["kind"] in ("iter", "other") and s["var"] is not None and s["var"][:2] != r[:2]]
         probs = []
         S_, B_, F_ = fld(HP + "::S"), fld(HP + "::Block"), fld(HP + "::F")
-        if not ketloop or deconv(ketloop[0]["bound"]) not in (("mcall", SC + "getBlockSize", S_, B_), ("mcall", HP + "::getSize", THIS)):
-            probs.append("the column index does not run over all states of the block")
-        ket = ("mcall", SC + "getFockState", S_, B_, r)
-        act = ("mcall", "Pomerol::Operator::actRight", F_, ket)
-        it = None
-        if l[0] == "mcall" and l[1] == SC + "getInnerState" and l[3][0] == "field" and l[3][1] == "std::pair::first":
-            it = l[3][2][2] if l[3][2][0] == "op" else None
-        if it is None:
+        full_bounds = (("mcall", SC + "getBlockSize", S_, B_), ("mcall", HP + "::getSize", THIS), ("mcall", "std::vector::size", ("mcall", SC + "getFockStates", S_, B_)))
+        if not ketloop:
+            # positive evidence first: (a) row and column exchanged -- the ROW is a counter over the block and the COLUMN is the
+            # position of an image state; (b) a counter loop on the column whose condition is `r + k < bound` (last kets skipped)
+            rowloop = [s_ for s_ in shapes if s_["kind"] == "index" and s_["start"] == ("lit", 0) and s_["var"][:2] == l[:2]]
+            if rowloop and r[0] == "mcall" and r[1] == SC + "getInnerState":
+                r3.bad(HP + "::prepare", f.loc(A), "row and column are exchanged: the matrix element <bra|H|ket> is stored at (position of ket, position of bra) -- the transposed (and for complex elements non-conjugated) block", cfgname)
+                raise AnalysisBroken("HamiltonianPart::prepare: (see violation)")
+            for Lx in Ls:
+                nx = f.nodes[Lx]
+                if nx["k"] == "for" and nx.get("c") is not None:
+                    for fc_ in ctx.cmp_fact(nx["c"], True):
+                        if fc_[0] in ("<", "<=") and fc_[1][0] == "op" and fc_[1][1] == "+" and len(fc_[1]) == 4 and fc_[1][2][:2] == r[:2] and fc_[1][3][0] == "lit" and fc_[1][3][1] > 0:
+                            r3.bad(HP + "::prepare", f.loc(Lx), "the column index stops %s before the end of the block: the last ket(s) of the block get no column" % fc_[1][3][1], cfgname)
+                            raise AnalysisBroken("HamiltonianPart::prepare: (see violation)")
+            raise AnalysisBroken("HamiltonianPart::prepare: the loop over the kets (column index from 0) was not recognised")
+        kb_ = deconv(ketloop[0]["bound"])
+        if kb_ not in full_bounds:
+            if any(key_contains(kb_, lambda y, fb=fb: y == fb) for fb in full_bounds) and kb_[0] == "op" and kb_[1] in ("-", "/"):
+                probs.append("the column index does not run over all states of the block (bound %s)" % str(kb_)[:60])
+            else:
+                raise AnalysisBroken("HamiltonianPart::prepare: the bound of the ket loop (%s) is not a recognised spelling of the block size" % str(kb_)[:60])
+        kets = [("mcall", SC + "getFockState", S_, B_, r), ("op", "[]", ("mcall", SC + "getFockStates", S_, B_), r), ("mcall", "std::vector::at", ("mcall", SC + "getFockStates", S_, B_), r),
+                ("mcall", "std::vector::operator[]", ("mcall", SC + "getFockStates", S_, B_), r)]
+        acts = [("mcall", "Pomerol::Operator::actRight", F_, kk_) for kk_ in kets]
+        from pv.loops import element_keys
+        from pv.paths import every_iteration
+        # the loop over the image states: an iterator / range loop over F.actRight(ket) that encloses the assignment
+        img = None
+        for Lx in Ls:
+            sx = loop_shape(f, ctx, Lx)
+            if sx["kind"] in ("iter", "range") and sx.get("bound") in acts:
+                img = (Lx, sx)
+        elem_first = l[3] if (l[0] == "mcall" and l[1] == SC + "getInnerState" and len(l) == 4 and l[3][0] == "field" and l[3][1] == "std::pair::first") else None
+        if not (l[0] == "mcall" and l[1] == SC + "getInnerState"):
             probs.append("the row index is not the inner position (getInnerState) of an image state")
+        elif img is None:
+            if l[3] in kets:
+                probs.append("the row index is the position of the ket itself, not of an image state of H|ket>")
+            else:
+                raise AnalysisBroken("HamiltonianPart::prepare: the loop over the image states F.actRight(ket) that encloses H(l,r) = ... was not found")
         else:
-            if not (v[0] == "field" and v[1] == "std::pair::second" and v[2][0] == "op" and v[2][2] == it):
+            Lx, sx = img
+            eks = element_keys(sx, sx["bound"])
+            if elem_first is None or elem_first[2] not in eks:
+                raise AnalysisBroken("HamiltonianPart::prepare: the row index is not read from the image state visited by the loop (form not analysed)")
+            if not (v[0] == "field" and v[1] == "std::pair::second" and v[2] in eks):
                 probs.append("the stored value is not the amplitude of the same image state")
-            # the iterator walks F.actRight(ket) completely
-            walk_ok = False
-            seen_loop = False
-            for j, n in f.walk(f.body):
-                if n["k"] == "for" and any(x == A for x, _ in f.walk(n["body"])):
-                    shp_ = loop_shape(f, ctx, j)
-                    if shp_["var"] is not None and shp_["var"][:2] == it[:2]:
-                        seen_loop = True
-                        from pv.paths import every_iteration
-                        if covers(shp_, act) and every_iteration(f, j, A) is not False:
-                            walk_ok = True
-            if not seen_loop:
-                raise AnalysisBroken("HamiltonianPart::prepare: the loop that advances the image iterator was not found")
-            if not walk_ok:
+            if not (covers(sx, sx["bound"]) and every_iteration(f, Lx, A) is not False):
                 probs.append("not every image state of H|ket> (all entries of F.actRight(ket), ket = Fock state `right` of the block) is written")
         if probs:
             r3.bad(HP + "::prepare", f.loc(A), "; ".join(probs), cfgname)
